@@ -404,10 +404,12 @@ class CFG:
         if self._normal_form is not None:
             return self._normal_form
         nullables = self.get_nullable_symbols()
-        unit_pairs = self.get_unit_pairs()
+        unit_productions = [x for x in self._productions
+                            if len(x.body) == 1
+                            and isinstance(x.body[0], Variable)]
         generating = self.get_generating_symbols()
         reachables = self.get_reachable_symbols()
-        if (len(nullables) != 0 or len(unit_pairs) != len(self._variables) or
+        if (len(nullables) != 0 or len(unit_productions) != 0 or
                 len(generating) !=
                 len(self._variables) + len(self._terminals) or
                 len(reachables) !=
